@@ -410,6 +410,41 @@ def _run_faulted(case, pre, plan_faults, labels, log, out, second_party=None, sp
             act.reenter_error = None
             hooks.act = act
             return {sp_key: act}
+    elif second_party == 'straddle':
+        def hooks(sim):
+            def act():
+                # another thread of this process *begins* a save of another file right here and is still inside its
+                # with-block when this save ends; it finishes afterwards
+                if act.fired:
+                    return
+                act.fired = True
+                armed, sim.armed = sim.armed, False
+                try:
+                    act.saver = S.fu.atomic_save(OTHER_PATH)
+                    act.file = act.saver.__enter__()
+                    act.file.write(OTHER_DATA[:9])
+                except BaseException as e:
+                    act.error = e
+                finally:
+                    sim.armed = armed
+
+            def after():
+                if not act.fired or act.error is not None:
+                    return
+                armed, sim.armed = sim.armed, False
+                try:
+                    act.file.write(OTHER_DATA[9:])
+                    act.saver.__exit__(None, None, None)
+                except BaseException as e:
+                    act.error = e
+                finally:
+                    sim.armed = armed
+            act.fired = False
+            act.error = None
+            act.reentered = None
+            act.reenter_error = None
+            hooks.act = act
+            return {sp_key: act, 'after-save': after}
     elif second_party == 'rmpart':
         def hooks(sim):
             def act():
@@ -444,7 +479,10 @@ def _run_faulted(case, pre, plan_faults, labels, log, out, second_party=None, sp
         fired.append((lab, key[1], f))
         out.fault('%s:%s' % (lab, f[0] if f[0] != 'errno' else errno.errorcode.get(f[1], str(f[1]))))
     sp_fired = bool(second_party and hooks.act.fired)
-    if sp_fired and second_party == 'thread':
+    if sp_fired and second_party == 'straddle':
+        out.fault('another-thread-mid-save-when-this-one-ends')
+        r.other_thread = hooks.act
+    elif sp_fired and second_party == 'thread':
         out.fault('another-thread-saves-mid-save')
         r.other_thread = hooks.act
     elif sp_fired and second_party == 'rmpart':
@@ -471,7 +509,7 @@ def run_case(case):
                                      second_party=sp[0] if sp else None,
                                      sp_key=(sp[1], sp[2]) if sp else None)
         out.steps = r.sim.n
-        if sp and sp[0] == 'thread':
+        if sp and sp[0] in ('thread', 'straddle'):
             if spf:
                 judge_other_thread(case, r, r.other_thread, out, 0)
             if out.violation is None:
@@ -547,6 +585,29 @@ def run_case(case):
                 out.violation['sig']['faulted'] = True
                 out.extra['found_plan'] = []
                 out.extra['found_sp'] = ['thread', kind, occ]
+                break
+    # ... or is still in the middle of its own save when this one ends: normally (hook before any event), or after a
+    # fault (hook before any event of the failure handling)
+    if out.violation is None and case.get('other_thread'):
+        # (not after a persistently full disk: the other thread's save cannot succeed there either)
+        plans = [(None, None, None, None, base)] + [sg for sg in singles if sg[1] != 'cleanup-unlink' and sg[3][0] != 'disk-full']
+        for (k1, lab1, key1, f1, r1) in plans:
+            occ = r1.sim.occ
+            for k in range(0 if k1 is None else k1 + 1, len(occ)):
+                kind, o = occ[k]
+                plan, labels = ({}, {}) if k1 is None else ({key1: f1}, {key1: lab1})
+                r, fired, spf = _run_faulted(case, pre, plan, labels, log, out, second_party='straddle', sp_key=(kind, o))
+                fault_runs += 1
+                out.steps += r.sim.n
+                if not spf or (k1 is not None and not fired):
+                    continue
+                out.nontrivial.append(core.h64([cfg, 'straddle', kind, o, lab1]))
+                if judge_other_thread(case, r, r.other_thread, out, k) or judge(case, pre, r, fired, out, k):
+                    out.violation['sig']['faulted'] = True
+                    out.extra['found_plan'] = [] if k1 is None else [[key1[0], key1[1], f1[0], f1[1], lab1]]
+                    out.extra['found_sp'] = ['straddle', kind, o]
+                    break
+            if out.violation is not None:
                 break
     # pairs: the second fault is placed in the run that already contains the first
     if out.violation is None and singles:
